@@ -91,6 +91,9 @@ func followUp(name string, shutsDown ...bool) func(w *SWorld, ops []OpRec, final
 				vs = append(vs, Violation{Prop: "C20", Op: name, Pre: "sched", Field: "followup-panicked", Detail: w.Notes[len(w.Notes)-1]})
 			}
 		}
+		// whatever timer is still armed fires now: it must not find a closed store
+		vrt.Advance(120 * time.Second)
+		vrt.Quiesce()
 		b2, err := rosmar.OpenBucket(rosmar.InMemoryURL, "other", rosmar.CreateOrOpen)
 		if err != nil {
 			vs = append(vs, Violation{Prop: "C20", Op: name, Pre: "sched", Field: "other-bucket", Detail: "cannot open another bucket afterwards: " + err.Error()})
@@ -151,6 +154,10 @@ func init() {
 		must(err)
 		w.Feeds = append(w.Feeds, f)
 	}
+	expWriter := []SOp{
+		opSafe("Set k exp=10 (first expiry of this bucket)", func(w *SWorld, st *TState) error { return w.C(st.T).Set("k", 10, nil, []byte(`{"e":1}`)) }),
+		opSafe("Touch j 20", func(w *SWorld, st *TState) error { _, err := w.C(st.T).Touch("j", 20); return err }),
+	}
 	for _, sd := range shutdowns {
 		for _, cfg := range []struct {
 			disk bool
@@ -160,6 +167,7 @@ func init() {
 				continue
 			}
 			registerC20("writer", cfg.disk, cfg.h, docs, writer, sd)
+			registerC20("expwriter", cfg.disk, cfg.h, docs, expWriter, sd)
 			registerC20("feedstart", cfg.disk, cfg.h, docs, feedStart, sd)
 			registerC20("viewupdate", cfg.disk, cfg.h, viewSetup, viewAfter, sd)
 			registerC20("expiry", cfg.disk, cfg.h, expSetup, timerDue, sd)
